@@ -76,6 +76,36 @@ PROPS.update({
         "explanation": "oracle: all-time query = last-writer-wins interval map: one row per written interval, ascending, stamped with the interval start, values of the last write; all timeframes 1Sec..1D, all fixed-width types, unsorted input, duplicates, year edges, leap day",
         "budget": {"quick": 40, "thorough": 600},
     },
+    "C11": {
+        "level": "exploration", "engine": "MODEL",
+        "rule": ("a stored history (fixed and variable buckets, 3 years, gaps) is written through the real write path inside the simulator; then "
+                 "25 (quick) / 120 (thorough) (start,end) pairs per bucket at nanosecond precision are drawn from instants around every stored row "
+                 "(the row itself, +-1ns, interval start/end, mid-interval), year edges, before/after all data, 15% inverted; "
+                 "distinct_nontrivial = distinct (kind, timeframe, #expected rows, #stored rows, range shape: inverted/before/after/cross-year/mid-start/mid-end)"),
+        "faults": ["none (fault-free configuration)", "background WAL writer on/off"],
+        "assumptions": [A_MODEL, "the oracle is the unrestricted query of the same server, filtered by the property's rule (no model of the scanner); an error response is accepted only when the expected result is empty"],
+        "explanation": "oracle: ranged result == rows of the all-time result with start <= t <= end (variable, full precision) or interval-start-of(start) <= t <= end (fixed), same order",
+        "budget": {"quick": 35, "thorough": 600},
+    },
+    "C12": {
+        "level": "exploration", "engine": "MODEL",
+        "rule": ("stored histories as C11; per bucket 20 (quick) / 100 (thorough) queries: a range (70%) or all time, N in 1..rows+2, first/last; "
+                 "distinct_nontrivial = distinct (kind, timeframe, direction, N, #rows, ranged)"),
+        "faults": ["none (fault-free configuration)"],
+        "assumptions": [A_MODEL, "the oracle is the unlimited query of the same range on the same server"],
+        "explanation": "oracle: limited result == first/last N rows of the unlimited result of the same range",
+        "budget": {"quick": 35, "thorough": 600},
+    },
+    "C13": {
+        "level": "exploration", "engine": "MODEL",
+        "rule": ("2-4 symbols of one (timeframe, attribute group), same schema in 70% of runs, written through the real write path; queries: all symbols listed, "
+                 "a subset, '*', and per symbol a column projection (random subset, 25% with an unknown name, 25% with a duplicate); "
+                 "distinct_nontrivial = distinct (kind, timeframe, query form, #symbols, same-schema) and projection shapes"),
+        "faults": ["none (fault-free configuration)"],
+        "assumptions": [A_MODEL, "a multi-symbol query over symbols with different column names may be refused (documented restriction) and is not counted"],
+        "explanation": "oracle: per symbol, rows of the multi-symbol query == rows of the single query; projected query has the same rows/times, exactly the requested existing columns, same values",
+        "budget": {"quick": 35, "thorough": 600},
+    },
     "C09": {
         "level": "exploration", "engine": "MODEL", "rule": MODEL_RULE,
         "faults": ["none (fault-free configuration)", "graceful restart", "compression on/off", "highly compressible payload bursts"],
